@@ -58,6 +58,7 @@ type Frame struct {
 	siteOrd   map[*ssa.CallCommon]int // ordinal of a call site among the calls of the same callee, in source order
 	stackIDs  []Term                  // object ids of this activation's non-escaping local aggregates
 	curBlock  *ssa.BasicBlock
+	atCallArgs []Term
 }
 
 func (fr *Frame) oblName(n string) string {
